@@ -86,6 +86,14 @@ CLAIMED = {
                   "encoder and the fixtures must be reproduced byte for byte.",
              note="Trusts TLC, gen/userfiles.py; layouts corroborated by the five repository fixtures. The 45 KB re-write comparison is the shim's bit-exact echo test.",
              ref="5 C09"),
+ "C06": dict(cat="model_checking", tech="TLC check of the addressing formula and exact half->single conversion (all 65536 patterns) + TLC trace validation of real parses with the specification's byte-level reference reader",
+             text="Mdl.tla is the structural reference reader (header chain, 17-slot declarations, attribute address = LOD offset + stream offset + element "
+                  "offset + stride x k, typed decode with an exact bit-level half conversion and generated byte/255 tables). TLC checks that elements read their "
+                  "own bytes for every declaration of the bounded family and the conversion laws for every half pattern. Every declaration of that family, "
+                  "leaf sweeps over all half patterns and bytes, and random multi-LOD models built by an independent encoder are parsed by the real library and "
+                  "every vertex, index, sub-mesh, raw stream and name is recomputed by TLC from the same bytes.",
+             note="Trusts TLC, gen/mdl.py (layout recalled from public docs; accepted by the library), gen/float_tables.py; NaN payloads unconstrained.",
+             ref="5 C06"),
 }
 HOOK_COMMITS = ["5eeb305"]
 REASON_PENDING = "check not built yet in this session (see DESIGN.md section 5); will be claimed when its trace specification exists"
@@ -109,7 +117,7 @@ def main():
             man["not_applicable"].append({"property_id": i, "reason": REASON_PENDING})
     man["engines"][0]["serves_properties"] = sorted(CLAIMED)
     man["hooks"]["source_commits"] = HOOK_COMMITS
-    man["setup_cmd"] = "cd /verif && python3 gen/pi_hex.py && cd shim && CARGO_NET_OFFLINE=true cargo build --offline --quiet"
+    man["setup_cmd"] = "cd /verif && python3 gen/pi_hex.py && python3 gen/float_tables.py && cd shim && CARGO_NET_OFFLINE=true cargo build --offline --quiet"
     json.dump(man, open(os.path.join(ROOT, "MANIFEST.json"), "w"), indent=1)
 
 if __name__ == "__main__":
